@@ -36,6 +36,10 @@ class InOracle:
         self.dead = False             # after a content violation the model has lost sync: stop judging content
         self.n_packets = 0
         self.any_flush = False
+        self.discards = 0
+        self.end_flag_cycle = -1
+        self.end_flag_suspect = False    # harness: a `last` byte was accepted and dropped in the final cycle of a discard episode
+        self.no_boundary_carry = False   # set by a discard: the first packet afterwards starts a fresh transfer
 
     # ------------------------------------------------------------------ inputs
     def on_input(self, byte, last, cycle):
@@ -51,6 +55,48 @@ class InOracle:
             self.flush[-1][1] = cycle
         else:
             self.flush.append([cycle, cycle])
+
+    def on_discard(self):
+        """`discard` was sampled high (first cycle of an episode).  Documented meaning: what is buffered is thrown away and nothing
+        is buffered or sent while it is high.  Decidable only while no packet is outstanding un-ACKed (otherwise device and host
+        cannot agree on the toggle whatever the device does): in that case the model stops judging content."""
+        self.discards += 1
+        self.end_flag_suspect = False
+        p = self.prev
+        if p is not None and not p["dev_acked"]:
+            self.dead = True
+            return False
+        keep = self.dev_len
+        del self.inp[keep:]
+        del self.in_cycle[keep:]
+        self.lasts = {L for L in self.lasts if L <= keep}
+        self.last_list = [L for L in self.last_list if L <= keep]
+        self._last_idx = min(self._last_idx, len(self.last_list))
+        self.no_boundary_carry = True
+        if p is not None:
+            self.prev = dict(p, payload=b"", end_off=keep)      # an owed ZLP is discarded with the rest
+        return True
+
+    def has_room(self):
+        """True when, by the double-buffer contract (one packet may be stored while another is sent), the endpoint must be able
+        to take another input byte: at most one complete packet (or owed ZLP) is un-acknowledged.  Ignores flush cuts: use only
+        when flush was never asserted, or when nothing at all is pending."""
+        n = len(self.inp)
+        pos = self.dev_len
+        count = 1 if self._zlp_owed_to_device() else 0
+        li = 0
+        ll = self.last_list
+        while count <= 1:
+            nxt = pos + self.mps
+            while li < len(ll) and ll[li] <= pos:
+                li += 1
+            if li < len(ll) and ll[li] < nxt:
+                nxt = ll[li]
+            if nxt > n:
+                break
+            count += 1
+            pos = nxt
+        return count <= 1
 
     def on_foreign_ack(self):
         if self.prev is not None:
@@ -129,7 +175,9 @@ class InOracle:
             self.report("packet_exceeds_max_packet_size", "%s > mps=%d" % (ctx, mps))
         prev = self.prev
         retry = False
-        if prev is not None:
+        if prev is not None and self.dead:
+            retry = not prev["dev_acked"]
+        elif prev is not None:
             if not prev["dev_acked"]:
                 retry = True
                 self.bin("retry")
@@ -191,12 +239,21 @@ class InOracle:
         end = off + n
         pa = self.accepted[-1] if self.accepted else None
         prev_full_last = bool(pa and pa[1] == mps and (pa[0] + pa[1]) in self.lasts)
+        if self.no_boundary_carry:
+            self.no_boundary_carry = False
+            prev_full_last = False
+            self.bin("delivery_after_discard")
         if n == 0:
             if prev_full_last:
                 self.bin("zlp_after_full_packet")
+            elif self.end_flag_suspect:
+                self.report("discarded_last_byte_leaves_end_flag", "%s: zero-length packet after a discard whose final cycle accepted (and dropped) a byte "
+                            "marked `last`: the end-of-transfer flag of the discarded byte survived the discard" % ctx)
             else:
                 self.report("spurious_zlp", "%s: zero-length packet, but the previous accepted packet %r did not end a transfer on a full packet" % (ctx, pa))
         else:
+            if n and self.end_flag_suspect and off < len(self.inp) and self.in_cycle[off] > self.end_flag_cycle:
+                self.end_flag_suspect = False
             if prev_full_last:
                 self.report("missing_zlp_after_full_packet", "%s: transfer ended at offset %d with a max-size packet and the next packet carries data" % (ctx, off))
             inside = [L for L in self.lasts if off < L < end]
@@ -228,6 +285,6 @@ class InOracle:
                             "polled until the endpoint only NAKed" % (self.name, self.host_len, len(self.inp)))
             else:
                 pa = self.accepted[-1] if self.accepted else None
-                if pa and pa[1] == self.mps and (pa[0] + pa[1]) in self.lasts:
+                if pa and pa[1] == self.mps and (pa[0] + pa[1]) in self.lasts and not self.no_boundary_carry:
                     self.report("missing_zlp_at_end_of_transfer", "%s last transfer ended on a max-size packet at offset %d and no ZLP followed"
                                 % (self.name, pa[0] + pa[1]))
